@@ -71,7 +71,13 @@ type Server struct {
 
 // Serves the connection once we accepted it
 func (server *Server) serveConn(conn net.Conn) {
-	defer recover()
+	// a panic raised while serving this connection (for example by a TLS
+	// callback or a connection state hook) must not take the whole proxy down
+	defer func() {
+		if r := recover(); r != nil {
+			server.logf("panic serving %s: %v", conn.RemoteAddr(), r)
+		}
+	}()
 	defer conn.Close()
 
 	hijackedConn := hack.NewHijackClientHelloConn(conn)
